@@ -25,6 +25,12 @@ CHECKS['C17'] = dict(technique='ThreadSanitizer race detection plus serial-refer
 CHECKS['C13'] = dict(technique='offline relation checker over recorded API calls vs an independent numpy crystallography reference',
              text='Built-in crystals and seeded triclinic cells are driven over Miller indices, energies, Debye factors, relative angles and all partial-term flags; d-spacings, volumes, Bragg angles, Q and structure factors returned by the library are compared with a metric-tensor reference and the explicit structure-factor sum, plus inversion/scaling/Friedel/additivity relations and the error side.',
              note='Trusted: numpy reference in xv/oracles/c13.py; tolerances 1e-10 (1e-5 where the float-printed built-in volume enters).', ref='2 C13')
+CHECKS['C09'] = dict(technique='offline reference-model checker over recorded API calls (jump-ratio formulas recomputed from public primitives)',
+             text='CS_FluorShell/CS_FluorLine and barn twins are called for all Z, shells, every line macro and energies bracketing every K/L edge; each result is compared at 1e-12 with the Krause jump-ratio formulas evaluated from the library\'s own primitives, including the failure side and all 11 reachable (shell, energy regime) cells.',
+             note='Trusted: numpy reference in xv/oracles/c09.py; primitives themselves are checked by C01/C02.', ref='2 C09')
+CHECKS['C10'] = dict(technique='exhaustive offline checker of group-line averages vs member lines (public calls only)',
+             text='For Z 1..120 every group/doublet macro and Siegbahn alias is compared with the stated average of its member lines computed from the public single-line calls (rate- or cross-section-weighted, plain-mean fallback, error when no member has an energy), range containment, group rates and alias identities. Exhaustive.',
+             note='Trusted: member lists derived from public macro names; KB accepts the two readings of DESIGN.md for the KO/KP group rates.', ref='2 C10')
 NOT_APPLICABLE = [
  dict(property_id='C20', reason='Fortran/Pascal/Cython/IDL/SWIG interface files cannot be compiled, loaded or executed in this sandbox (no gfortran, fpc, Cython, swig, IDL), so there is no execution for a runtime monitor to observe; comparing their text is static analysis, a different technique. The executable slices (Java constants, C++ header, exported symbols) are monitored as by-products of C19/C18/C03.'),
 ]
